@@ -2,6 +2,7 @@ package props
 
 import (
 	"sync"
+	"voicheck/edt"
 	"voicheck/elin"
 	"voicheck/erange"
 	"voicheck/esib"
@@ -111,4 +112,49 @@ func arithmeticFoundations(c *Ctx) {
 		esib.CheckMaskedScan(run, p, "SIB-scan")
 	}
 	run.NotDecided = append(run.NotDecided, "arithmetic foundations: inversion/square-root chains, full reduction below L, the amd64/AVX2 assembly (see C04/C05/C06)")
+}
+
+// groupFoundations: the exactness rules of the point arithmetic every primitive is built on — the
+// serial formulas and representation changes against the reference formulas (FORMULA), Add/Sub
+// duality, in-place (aliased) use of point and scalar operations (ALIAS), fresh tables on
+// re-initialisation (SHARED-fresh) — in the first loaded configuration.
+func groupFoundations(c *Ctx, withAlias bool) {
+	run := c.Run
+	id := c.Configs()[0]
+	if !c.Preload(id) {
+		return
+	}
+	p := c.Prog(id)
+	run.SetConfig(id)
+	cfg := &edt.Config{P: p, Mod: modFor(p)}
+	form := run.Rule("FORMULA", "the serial point formulas, representation changes, neutral elements and their compositions equal the reference formulas as terms over uninterpreted field operations, modulo commutativity", 22)
+	for _, s := range append(c03FormulaSpecs(), c03CompositionSpecs()...) {
+		edt.Check(form, cfg, s)
+	}
+	run.Rule("SIB-duality", "Sub* formulas are the sign-dual of their Add* twins", 4)
+	esib.CheckDuality(run, p, "SIB-duality")
+	checkSharedFresh(p, run.Rule("SHARED-fresh", "re-initialising an expanded point installs a fresh table", 2))
+	if withAlias {
+		al := run.Rule("ALIAS", "point and scalar operations compute the same result when two same-typed pointer parameters denote one object", 100)
+		run.Sample(checkAliasing(al, p, []string{"curve", "curve/scalar"}))
+	}
+}
+
+// transcriptFoundations: Merlin framing, STROBE structure and the Keccak sibling (the rules of C13).
+func transcriptFoundations(c *Ctx) {
+	run := c.Run
+	id := c.Configs()[0]
+	if !c.Preload(id) {
+		return
+	}
+	p := c.Prog(id)
+	run.SetConfig(id)
+	cfg := &edt.Config{P: p, Mod: modFor(p)}
+	dt := run.Rule("SEQ-merlin", "Merlin operations and STROBE primitives have exactly the specified operation sequences and decision structure", 30)
+	for _, s := range c13Specs() {
+		edt.Check(dt, cfg, s)
+	}
+	if c.Preload("purego") {
+		checkKeccakSibling(c, run)
+	}
 }
